@@ -301,6 +301,9 @@ fn main() {
         let n = 72; let mut edges = vec![]; for i in 1..71 { edges.push((0, i)); edges.push((i, 71)); }
         cases.push(Case { n, accs: (0..n).map(|i| Acc { id: i, reads: vec![], writes: vec![] }).collect(), edges, desc: "root -> 70 children -> sink".into() });
     }
+    // large fan-in / fan-out
+    cases.push(Case { n: 301, accs: (0..301).map(|i| Acc { id: i, reads: vec![], writes: vec![] }).collect(), edges: (0..300).map(|i| (i, 300)).collect(), desc: "fan-in: 300 functions -> 1 sink".into() });
+    cases.push(Case { n: 301, accs: (0..301).map(|i| Acc { id: i, reads: vec![], writes: vec![] }).collect(), edges: (1..301).map(|i| (0, i)).collect(), desc: "fan-out: 1 root -> 300 functions".into() });
     // dependents declared before their dependencies
     cases.push(Case { n: 3, accs: (0..3).map(|i| Acc { id: i, reads: vec![], writes: vec![] }).collect(), edges: vec![(2, 1), (1, 0), (2, 0)], desc: "deploy(0) <- test(1) <- build(2), dependents declared first".into() });
     for round in 0..120 {
